@@ -11,7 +11,7 @@ RB_RULE = ("; engine B: the unmodified ninja executable as a client of a real FI
            "statements + link, a depth-1 pool, a statement whose start fails, failing commands (with and without touched "
            "outputs, a child dying of SIGINT), -k1/-k0, default and reversed completion order, SIGINT at each of the first "
            "three waits: the number of tokens in the FIFO after ninja exits must equal the number before, on every path; "
-           "a command that closes its output at once and runs for 1.6 s next to three 0.15 s commands under -j2: the short ones "
+           "a command that closes its output at once and runs for 2.6 s next to three 0.15 s commands under -j2: the short ones "
            "must all end well before it does (the real poll loop and waitpid)")
 
 
